@@ -31,7 +31,7 @@ def gen(ctx):
 
 def correspond(ctx):
     if ctx.thorough():
-        args = ['exh=4', 'small=20000', 'cases=1500', 'len=300', 'keccak=5000']
+        args = ['exh=4', 'small=20000', 'cases=800', 'len=250', 'keccak=5000']
         to = 1500
     else:
         args = ['exh=3', 'small=3000', 'cases=150', 'len=160', 'keccak=1000']
